@@ -527,6 +527,31 @@ def firstBindFrom (i : Nat) : List SPat → Val → Option (Nat × List (Nat × 
 
 def firstBind (cs : List SPat) (x : Val) : Option (Nat × List (Nat × Val)) := firstBindFrom 0 cs x
 
+/-! ### occurrence paths (the `Assigned { path, .. }` of decision_tree.rs) -/
+
+mutual
+/-- the variables of a source pattern with the path (argument indexes from the scrutinee) of the
+sub-value each one names, in binding order -/
+def varPaths : SPat → List Nat → List (Nat × List Nat)
+  | .var x, π => [(x, π)]
+  | .discard, _ => []
+  | .as_ x p, π => (x, π) :: varPaths p π
+  | .lit _, _ => []
+  | .ctor _ _ args, π => varPathsL args π 0
+def varPathsL : List SPat → List Nat → Nat → List (Nat × List Nat)
+  | [], _, _ => []
+  | p :: ps, π, k => varPaths p (π ++ [k]) ++ varPathsL ps π (k + 1)
+end
+
+/-- the sub-value at a path -/
+def subAt : List Nat → Val → Option Val
+  | [], v => some v
+  | k :: π, .ctor _ vs =>
+    match vs[k]? with
+    | some w => subAt π w
+    | none => none
+  | _ :: _, .lit _ => none
+
 /-! ## decision trees with an arbitrary column-selection function -/
 
 /-- what a test node inspects -/
